@@ -160,7 +160,11 @@ class ErrorHandling:
     def query_is_valid(self, tokens):
         # try to parse list of tokens
 
-        ast = self.parser.parse(iter(tokens))
+        try:
+            ast = self.parser.parse(iter(tokens))
+        except ParsingException:
+            # a grammar action rejects the made-up statement: not a valid continuation
+            return False
         return ast is not None
 
 
